@@ -51,11 +51,18 @@ Fixpoint str2int_digits (s : str) (base n : Z) : option (Z * str) :=
   | [] => Some (n, [])
   end.
 
+(* optional '-' / '+' in front *)
+Definition strip_sign (s : str) : bool * str :=
+  match s with
+  | c :: r => if c =? 45 then (true, r) else if c =? 43 then (false, r) else (false, s)
+  | [] => (false, [])
+  end.
+
 (* tonumber(s, base) *)
 Definition lua_tonumber_base (s : str) (base : Z) : option Z :=
   let s1 := skip_ws s in
-  let neg := match s1 with 45 :: _ => true | _ => false end in
-  let s2 := match s1 with 45 :: r => r | 43 :: r => r | _ => s1 end in
+  let neg := fst (strip_sign s1) in
+  let s2 := snd (strip_sign s1) in
   match s2 with
   | c :: _ =>
       if is_alnum c then
@@ -169,13 +176,17 @@ Fixpoint lua_ipow (fuel : nat) (y x n : Z) : option Z :=
       else lua_ipow f (lmul x y) (lmul x x) ((n - 1) / 2)
   end.
 
-(* s:lower():match('^([+-]?)(%w+)$') *)
+(* s:lower():match('^([+-]?)(%w+)$'): the captured sign (0 for none) and the alphanumeric rest *)
 Definition split_sign (s : str) : option (Z * str) :=
-  let sign := match s with 45 :: _ => 45 | 43 :: _ => 43 | _ => 0 end in
-  let rest := match s with 45 :: r => r | 43 :: r => r | _ => s end in
-  match rest with
+  match s with
   | [] => None
-  | _ => if forallb is_alnum rest then Some (sign, rest) else None
+  | c :: r =>
+      let signed := (c =? 45) || (c =? 43) in
+      let rest := if signed then r else s in
+      match rest with
+      | [] => None
+      | _ => if forallb is_alnum rest then Some (if signed then c else 0, rest) else None
+      end
   end.
 
 Fixpoint fb_loop (fuel : nat) (int : str) (first : bool) (step : nat) (base : Z) (n : bint) : res bint :=
